@@ -116,7 +116,7 @@ func (g *Gen) lt() *int32 {
 		return p32(-1)
 	}
 	if g.p.LeaseFocus {
-		return common.Pick(g.r, []*int32{nil, p32(1), p32(2), p32(2), p32(3), p32(5)})
+		return common.Pick(g.r, []*int32{nil, p32(0), p32(1), p32(2), p32(2), p32(3), p32(5)}) // 0 = explicitly no lease
 	}
 	return common.Pick(g.r, []*int32{nil, nil, p32(0), p32(1), p32(2), p32(2), p32(5)})
 }
@@ -333,6 +333,11 @@ func (g *Gen) advance() int64 {
 		default:
 			return next + int64(r.Intn(3))*int64(time.Second) - g.now
 		}
+	}
+	if len(g.pending) > 0 && r.Chance(15) {
+		// a long wait while calls are blocked: anything the server does to a request that has waited "too long"
+		// (10 s, 30 s, a minute are the usual thresholds) happens inside such a step
+		return common.Pick(r, []int64{10 * int64(time.Second), 10*int64(time.Second) + 1, 12 * int64(time.Second), 31 * int64(time.Second), 61 * int64(time.Second)})
 	}
 	return common.Pick(r, []int64{1, int64(time.Second), int64(time.Second) - 1, 2 * int64(time.Second), 3*int64(time.Second) + 1, int64(r.Intn(4000000000)) + 1})
 }
